@@ -51,6 +51,14 @@ def case(spec):
         k = len(v) // 2
         v[k:] = v[k:] * 8.0
         data[col] = v
+    if spec.get("tie"):
+        # two tickers share their history exactly up to a date and diverge afterwards: ranking ties
+        x, y, k = spec["tie"]
+        v = data[x].values.copy()
+        w = data[y].values.copy()
+        w[:k] = v[:k]
+        w[k:] = v[k - 1] * (w[k:] / w[k - 1]) if k else w[k:]
+        data[y] = w
     idx = data.index
     ad = R.additional(idx, spec, data)
     fee = spec.get("fee")
@@ -73,11 +81,18 @@ def case(spec):
             # parent_short_a: the parent itself is short 3x a ticker that multiplies - it goes bankrupt
             # in mid-run while the child's own book stays solvent
             ad["pw"]["a"] = -3.0 if spec["schedule"] == "parent_short_a" else 0.25
-        parent = bt.Strategy("r", palgos, [child] + extra)
+        if spec.get("fi_parent"):
+            # a notional-weighted parent: the child's index is still what it sees in its universe
+            ad["pn"] = pd.Series(float(spec.get("capital", 1e6)), index=idx)
+            if sched == "once":
+                palgos = [A.RunOnce(), A.SetNotional("pn"), A.WeighSpecified(s1=0.5), A.Rebalance()]
+            parent = bt.FixedIncomeStrategy("r", palgos, [child] + extra)
+        else:
+            parent = bt.Strategy("r", palgos, [child] + extra)
         nested = bt.Backtest(parent, data, initial_capital=float(spec.get("capital", 1e6)), commissions=T.fee_fn(fee), integer_positions=integer, progress_bar=False, additional_data=dict(ad))
         nested.run()
         rt.seed_rng(0)
-        alone = bt.Backtest(child_def(spec, idx), data, commissions=T.fee_fn(fee), integer_positions=integer, progress_bar=False, additional_data={k: v for k, v in ad.items() if k != "pw"})
+        alone = bt.Backtest(child_def(spec, idx), data, commissions=T.fee_fn(fee), integer_positions=integer, progress_bar=False, additional_data={k: v for k, v in ad.items() if k not in ("pw", "pn")})
         alone.run()
     except Exception as e:
         if rt.classify(e) == "guard":
@@ -147,6 +162,19 @@ def specs(tier, seed):
         for sc in ("once", "rotate", "defund_refund", "never"):
             for mi, m in enumerate(modes[:4]):
                 out.append({"child": {"gate": g, "select": "these", "weigh": "specified"}, "three_levels": True, "schedule": sc, "integer": m[0], "fee": m[1], "spread": m[2], "capital": 1e6, "data": "d25", "alpha": "exact" if mi % 2 == 0 else "decimal", "late": False})
+    # ranking ties inside a child whose declared ticker order differs from the data's column order
+    for g in ("weekly", "monthly", "daily"):
+        for kids in (["d", "b", "a"], ["b", "a"], ["a", "b", "d"]):
+            for tie in (("a", "b", 9), ("a", "b", 14), ("b", "d", 11)):
+                if tie[0] not in kids or tie[1] not in kids:
+                    continue
+                for sc in ("once", "rotate"):
+                    out.append({"child": {"gate": g, "select": "momentum", "weigh": "equal"}, "child_tickers": kids, "tie": list(tie), "schedule": sc, "integer": False, "fee": None, "spread": None, "capital": 1e6, "data": "d25", "alpha": "exact", "late": False})
+    # a notional-weighted (fixed-income) parent publishes its sub-strategies' indices too
+    for g in ("daily", "weekly", "monthly"):
+        for body in ({"select": "these", "weigh": "specified"}, {"select": "all", "weigh": "equal"}):
+            for sc in ("never", "once"):
+                out.append({"child": dict(body, gate=g), "fi_parent": True, "schedule": sc, "integer": False, "fee": None, "spread": None, "capital": 1e6, "data": "d25", "alpha": "exact", "late": False})
     # the parent goes bankrupt in mid-run; the child keeps rebalancing on its own calendar
     for g in ("daily", "weekly", "weekly_end", "monthly"):
         for body in ({"select": "these", "weigh": "specified"}, {"select": "all", "weigh": "equal"}):
